@@ -104,14 +104,36 @@ class LinkifyDouble:
 # --------------------------------------------------------------------------------------------
 
 
+WARMUP = "# h\n\n\"q\" 'r' a  \nb\nc ![i](s) *e* [l](u)\n\n```py\nx\n```\n\n***\n"
+_FLIP = {"xhtmlOut": lambda v: not v, "breaks": lambda v: not v, "langPrefix": lambda v: "zz-", "quotes": lambda v: "«»‹›" if v != "«»‹›" else "“”‘’"}
+
+
 def build(cfg: dict[str, Any]):
-    """Build a MarkdownIt instance from a configuration value."""
+    """Build a MarkdownIt instance from a configuration value.
+
+    With ``cfg["late"]`` the instance is first constructed with *other* values for the renderer-only options and
+    the quotes, used once, and only then given its final option values in place (item or attribute assignment) and its
+    rule switches: by C10 all routes are indistinguishable, so every check also exercises "configured after use"."""
     from markdown_it import MarkdownIt
+    from markdown_it.utils import OptionsDict
 
     opts = dict(cfg.get("options") or {})
-    md = MarkdownIt(cfg.get("preset", "commonmark"), opts) if opts else MarkdownIt(
-        cfg.get("preset", "commonmark")
-    )
+    preset = cfg.get("preset", "commonmark")
+    if cfg.get("late"):
+        final = dict(MarkdownIt(preset).options)
+        final.update(opts)
+        start = dict(opts)
+        for k, f in _FLIP.items():
+            start[k] = f(final[k])
+        md = MarkdownIt(preset, start)
+        md.render(WARMUP)
+        for i, k in enumerate(sorted(_FLIP)):
+            if i % 2 and isinstance(getattr(OptionsDict, k, None), property):
+                setattr(md.options, k, final[k])
+            else:
+                md.options[k] = final[k]
+    else:
+        md = MarkdownIt(preset, opts) if opts else MarkdownIt(preset)
     if cfg.get("linkify"):
         md.linkify = LinkifyDouble()
         md.options["linkify"] = True
